@@ -111,6 +111,9 @@ func tEq(a, b Term) Term {
 	if a.S == b.S {
 		return tTrue
 	}
+	if isNumeral(a.S) && isNumeral(b.S) {
+		return tFalse
+	}
 	return Term{app("=", a.S, b.S), sBool}
 }
 
@@ -370,6 +373,7 @@ func (r *TypeReg) preamble() string {
 		fmt.Fprintf(&b, "(declare-datatypes ((%s 0)) (((%s %s))))\n", si.name, si.ctor(), strings.Join(fs, " "))
 	}
 	b.WriteString("(declare-fun mulI (Int Int) Int)\n")
+	b.WriteString(ufArithAxioms)
 	// string literals
 	for i, s := range r.strList {
 		fmt.Fprintf(&b, "(declare-const str%d Str) ; %q\n", i, s)
@@ -394,3 +398,24 @@ func sortedKeys[V any](m map[string]V) []string {
 	sort.Strings(ks)
 	return ks
 }
+
+// Axioms of the UF arithmetic mode. Each is an instance of a fact about Euclidean
+// div/mod and is proved against the native operators by `gvc axioms`.
+var ufAxiomBodies = []struct{ name, vars, pat, body string }{
+	{"umod-range", "((x Int) (y Int))", "(umod x y)", "(=> (> y 0) (and (<= 0 (umod x y)) (< (umod x y) y)))"},
+	{"umod-small", "((x Int) (y Int))", "(umod x y)", "(=> (and (<= 0 x) (< x y)) (= (umod x y) x))"},
+	{"umod-1y", "((x Int) (y Int))", "(umod x y)", "(=> (and (> y 0) (<= y x) (< x (* 2 y))) (= (umod x y) (- x y)))"},
+	{"umod-2y", "((x Int) (y Int))", "(umod x y)", "(=> (and (> y 0) (<= (* 2 y) x) (< x (* 3 y))) (= (umod x y) (- x (* 2 y))))"},
+	{"udiv-range", "((x Int) (y Int))", "(udiv x y)", "(=> (and (<= 0 x) (> y 0)) (and (<= 0 (udiv x y)) (<= (udiv x y) x)))"},
+	{"udiv-small", "((x Int) (y Int))", "(udiv x y)", "(=> (and (<= 0 x) (< x y)) (= (udiv x y) 0))"},
+	{"umod-udiv", "((x Int) (y Int))", "(umod x y)", "(=> (and (<= 0 x) (> y 0)) (<= (umod x y) x))"},
+}
+
+var ufArithAxioms = func() string {
+	var b strings.Builder
+	b.WriteString("(declare-fun umod (Int Int) Int)\n(declare-fun udiv (Int Int) Int)\n")
+	for _, a := range ufAxiomBodies {
+		fmt.Fprintf(&b, "(assert (forall %s (! %s :pattern (%s)))) ; %s\n", a.vars, a.body, a.pat, a.name)
+	}
+	return b.String()
+}()
